@@ -266,7 +266,9 @@ func (n *c28Node) startSink() error {
 				}
 			}
 			cnt = min(cnt, 100_000) // proxied requests carry arbitrary bodies here
-			n.sinkEvents.Add(int64(cnt))
+			if strings.HasPrefix(r.Header.Get("User-Agent"), "refinery/") {
+				n.sinkEvents.Add(int64(cnt)) // sent by the node's upstream transmission
+			}
 			w.Header().Set("Content-Type", "application/json")
 			w.Write([]byte("[" + strings.TrimSuffix(strings.Repeat(`{"status":202},`, cnt), ",") + "]"))
 		default:
@@ -1455,6 +1457,10 @@ func c28Clip(s string, n int) string {
 
 func (g *c28Gen) libhoney(batch, extreme bool) c28Req {
 	rng := g.rng
+	if !extreme && rng.Chance(0.4) { // well-formed wrapper: the body is what gets exercised
+		g.benign = true
+		defer func() { g.benign = false }()
+	}
 	r := c28Req{Listener: verifkit.Pick(rng, "incoming", "incoming", "peer")}
 	body, ct, class := g.libhoneyBody(batch, extreme)
 	body, ce, encLabel := g.encode(body)
@@ -1778,6 +1784,10 @@ func (g *c28Gen) otlpPayload(logs bool, asJSON bool, extreme bool, limit int) ([
 
 func (g *c28Gen) otlpHTTP(logs, extreme bool) c28Req {
 	rng := g.rng
+	if !extreme && rng.Chance(0.4) {
+		g.benign = true
+		defer func() { g.benign = false }()
+	}
 	r := c28Req{Listener: verifkit.Pick(rng, "incoming", "incoming", "incoming", "peer")}
 	asJSON := rng.Chance(0.35)
 	if g.force != 0 {
@@ -1819,6 +1829,10 @@ func (g *c28Gen) otlpHTTP(logs, extreme bool) c28Req {
 
 func (g *c28Gen) otlpGRPC(logs, extreme bool) c28Req {
 	rng := g.rng
+	if !extreme && rng.Chance(0.4) {
+		g.benign = true
+		defer func() { g.benign = false }()
+	}
 	// gRPC default MaxRecvMsgSize is 15 MB
 	body, class := g.otlpPayload(logs, false, extreme, 15_000_000)
 	r := c28Req{Proto: "grpc", Method: E3GRPCTraceExport, Payload: body, Gzip: rng.Chance(0.2), MD: map[string]string{}}
@@ -2155,7 +2169,11 @@ func TestVerif_C28Requests(t *testing.T) {
 			default:
 				run.Count("child_crashes", 1)
 				j := out.CrashedAt
-				sig := "C28/requests/" + out.Site + "/" + out.Message
+				msg := out.Message
+				if strings.Contains(msg, "out of memory") {
+					msg = "out of memory" // "runtime: out of memory" (mmap refused) and "out of memory" (heap limit) are one input class
+				}
+				sig := "C28/requests/" + out.Site + "/" + msg
 				// attribution: replay the preceding window with per-request draining
 				lo := max(res.starts[oi], j-32)
 				witnessIdx, reproduced := j, false
@@ -2182,7 +2200,7 @@ func TestVerif_C28Requests(t *testing.T) {
 					}
 					extra["window"] = window
 				}
-				run.Violation(sig, fmt.Sprintf("request crashed the node in %s: %s", out.Site, out.Message), c28Witness(r, extra))
+				run.Violation(sig, fmt.Sprintf("request crashed the node in %s: %s", out.Site, msg), c28Witness(r, extra))
 			}
 		}
 		os.Remove(bd.file)
